@@ -10,6 +10,7 @@ def remove_edges(A: Arr2, no_edges: Int) -> Arr2i:
     ensures(result.shape[0] == len(A) and result.shape[1] == len(A), binary(result),
             all(implies(result[i, j] != 0, A[i, j] != 0) for i in range(len(A)) for j in range(len(A))),
             n_edges(result) == n_edges(A) - no_edges)
+    reproducible(private=True, nondegenerate=False)
     fresh(result)
 
 
@@ -40,6 +41,7 @@ def add_edges(A: Arr2, no_edges: Int) -> Arr2i:
             all(implies(A[i, j] != 0, result[i, j] != 0) for i in range(len(A)) for j in range(len(A))),
             acyclic(result),
             n_edges(result) == E + no_edges)
+    reproducible(private=True, nondegenerate=False)
     fresh(result)
 
 
